@@ -481,7 +481,7 @@ class Helper(object):
         if any(not (isinstance(d, ast.Name) and d.id == 'staticmethod') for d in fn.decorator_list):
             self.ok = False
         for n in ast.walk(fn):
-            if isinstance(n, (ast.Yield, ast.YieldFrom, ast.Await, ast.Global, ast.Nonlocal)) or (
+            if isinstance(n, (ast.Yield, ast.YieldFrom, ast.Await, ast.Nonlocal)) or (
                     n is not fn and isinstance(n, (ast.FunctionDef, ast.AsyncFunctionDef, ast.ClassDef))):
                 self.ok = False
             if isinstance(n, ast.Call) and ((isinstance(n.func, ast.Name) and n.func.id == fn.name) or (
@@ -516,7 +516,12 @@ class Helper(object):
                     for x in ast.walk(n.target):
                         if isinstance(x, ast.Name):
                             comp.add(x.id)
-        self.locals = stores - comp
+        self.globals = {g for n in ast.walk(fn) if isinstance(n, ast.Global) for g in n.names}
+        if self.globals & set(self.params):
+            self.ok = False
+        if self.kind == 'stmt':
+            self.body = [st for st in self.body if not isinstance(st, ast.Global)]
+        self.locals = stores - comp - self.globals
         self.reassigned = [p for p in self.params if p in self.locals]
 
     def bind(self, call, receiver=None):
@@ -681,6 +686,17 @@ class Inliner(object):
         h, env = m
         if ctxk != 'return' and h.has_return and not h.tail:
             return None
+        if h.globals:
+            # the helper rebinds module globals: possible only where the caller does not use these names as locals of its own
+            cur = getattr(self, 'cur_fn', None)
+            if cur is None:
+                return None
+            declared = {g for n in ast.walk(cur) if isinstance(n, ast.Global) for g in n.names}
+            local_stores = {n.id for n in ast.walk(cur) if isinstance(n, ast.Name) and isinstance(n.ctx, (ast.Store, ast.Del))} | \
+                {a.arg for a in cur.args.args + cur.args.kwonlyargs}
+            if (h.globals - declared) & local_stores:
+                return None
+            self.need_globals = getattr(self, 'need_globals', set()) | (h.globals - declared)
         target = None
         if ctxk == 'assign' and len(st.targets) == 1 and isinstance(st.targets[0], ast.Name) \
                 and not any(isinstance(x, ast.Name) and x.id == st.targets[0].id for x in ast.walk(call)):
@@ -764,6 +780,7 @@ class Inliner(object):
 
     def run_fn(self, fn):
         names = {n.id for n in ast.walk(fn) if isinstance(n, ast.Name)} | {a.arg for a in fn.args.args}
+        self.cur_fn = fn
 
         def do_block(block):
             out = []
@@ -781,7 +798,12 @@ class Inliner(object):
                     b[:] = do_block(b)
                 out.append(st)
             return out
+        self.need_globals = set()
         fn.body[:] = do_block(fn.body)
+        if self.need_globals:
+            pos = 1 if (fn.body and isinstance(fn.body[0], ast.Expr) and isinstance(fn.body[0].value, ast.Constant)) else 0
+            fn.body.insert(pos, ast.Global(names=sorted(self.need_globals), lineno=fn.lineno, col_offset=0, end_lineno=fn.lineno, end_col_offset=0))
+            self.need_globals = set()
         self.n += self.inline_expr_calls(fn, names)
 
     def run(self):
@@ -964,6 +986,27 @@ def rename_map(trees, baseline):
         base = (baseline or {}).get(rel)
         if not base or 'fingerprints' not in base:
             continue
+        # private module-level variables first: the old name vanished, one new private name is bound to the same initial value
+        pv = base.get('private_values') or {}
+        now_pv = {}
+        for st in tree.body:
+            if isinstance(st, (ast.Assign, ast.AnnAssign)) and st.value is not None:
+                tg = st.targets if isinstance(st, ast.Assign) else [st.target]
+                if len(tg) == 1 and isinstance(tg[0], ast.Name) and tg[0].id.startswith('_') and not tg[0].id.startswith('__'):
+                    now_pv[tg[0].id] = ast.unparse(st.value)[:200]
+        all_now = set(module_names(tree)[0]) | set(module_names(tree)[1])
+        gone_v = {n: v for n, v in pv.items() if n not in all_now}
+        new_v = {n: v for n, v in now_pv.items() if n not in pv and n not in base.get('constants', []) and n not in base.get('functions', [])}
+        vmap = {}
+        for n_old, v_old in gone_v.items():
+            c_new = [n for n, v in new_v.items() if v == v_old]
+            c_old = [n for n, v in gone_v.items() if v == v_old]
+            if len(c_new) == 1 and len(c_old) == 1:
+                vmap[c_new[0]] = n_old
+        if vmap:
+            out.update(vmap)
+            tree = copy.deepcopy(tree)
+            _Rename(vmap).visit(tree)
         now = module_fingerprints(tree)
         gone = {q: fp for q, fp in base['fingerprints'].items() if q not in now and q.split('.')[-1].startswith('_')
                 and not q.split('.')[-1].startswith('__')}
@@ -1043,6 +1086,60 @@ def bound_method_temporaries(tree):
                                 n += 1
                                 continue
                     i += 1
+    return n
+
+
+# ------------------------------------------------------------------ P15 a local that only stands for a module global
+def global_aliases(tree):
+    """`x = G` where G is a module-level name that the function does not rebind afterwards and x is a local assigned only there:
+    every read of x is a read of G (single-threaded semantics), so x is replaced by G and the assignment dropped."""
+    mod_names = set()
+    for st in tree.body:
+        if isinstance(st, (ast.FunctionDef, ast.ClassDef)):
+            mod_names.add(st.name)
+        else:
+            mod_names.update(assigned_names(st))
+    n = 0
+    for fn in ast.walk(tree):
+        if not isinstance(fn, ast.FunctionDef):
+            continue
+        params = {a.arg for a in fn.args.args + fn.args.kwonlyargs + fn.args.posonlyargs}
+        declared = {g for x in ast.walk(fn) if isinstance(x, ast.Global) for g in x.names}
+        stores = {}
+        for x in ast.walk(fn):
+            if isinstance(x, ast.Name) and isinstance(x.ctx, (ast.Store, ast.Del)):
+                stores.setdefault(x.id, []).append(x)
+        nested = [x for x in ast.walk(fn) if x is not fn and isinstance(x, (ast.FunctionDef, ast.Lambda, ast.ClassDef))]
+        for i, st in enumerate(list(fn.body)):
+            if not (isinstance(st, ast.Assign) and len(st.targets) == 1 and isinstance(st.targets[0], ast.Name) and isinstance(st.value, ast.Name)):
+                continue
+            x, g = st.targets[0].id, st.value.id
+            if x in params or x in declared or len(stores.get(x, [])) != 1 or g not in mod_names or g in params:
+                continue
+            if g in stores and g not in declared:
+                continue                          # g is a local of this function
+            if any(s_.lineno >= st.lineno for s_ in stores.get(g, [])):
+                continue                          # the global is rebound after the alias was taken
+            if nested:
+                continue
+            calls_after = False
+            for later in fn.body[fn.body.index(st) + 1:]:
+                for c in ast.walk(later):
+                    if isinstance(c, ast.Call):
+                        calls_after = True
+            # a call after the alias may rebind the global only if some function of the module assigns it; the alias then differs
+            rebinders = [f for f in ast.walk(tree) if isinstance(f, ast.FunctionDef) and f is not fn and any(
+                isinstance(y, ast.Global) and g in y.names for y in ast.walk(f))]
+            if calls_after and rebinders:
+                called = {c.func.id for later in fn.body[fn.body.index(st) + 1:] for c in ast.walk(later)
+                          if isinstance(c, ast.Call) and isinstance(c.func, ast.Name)}
+                if called & {f.name for f in rebinders}:
+                    continue
+            for y in ast.walk(fn):
+                if isinstance(y, ast.Name) and y.id == x and isinstance(y.ctx, ast.Load):
+                    y.id = g
+            fn.body.remove(st)
+            n += 1
     return n
 
 
@@ -1346,6 +1443,7 @@ def normalise_source(src, rel, baseline, cf=None, lookups=True, renames=None, fo
     if new_consts:
         changed += subst_new_constants(tree, {c for c in new_consts if '.' not in c})
     before = ast.dump(tree)
+    global_aliases(tree)
     _GetattrConst().visit(tree)
     bound_method_temporaries(tree)
     PercentFormats().visit(tree)
